@@ -174,6 +174,9 @@ def impl_slots(case):
         for l in case["requests"]:
             r, d = get_unique_label(l, d); out.append(r)
         return dict(out=out, table=[[k, v] for k, v in d.items()])
+    if case["kind"] == "relabel":
+        from pyrates.frontend.template.circuit import CircuitTemplate
+        return dict(out=CircuitTemplate._relabel_var(case["var"], dict(case["map"])))
     if case["kind"] == "replace":
         from pyrates.backend.parser import replace
         return dict(out=replace(case["eq"], case["term"], case["rep"], rhs_only=case["rhs"], lhs_only=case["lhs"]))
@@ -583,6 +586,7 @@ def shrink(ctx, case):
 HEADER_E2 = """From Coq Require Import List ZArith Bool String.
 From PV Require Import PyLib Auto Corr.
 E2_IMPORT
+E2_IMPREL
 Import ListNotations.
 Open Scope Z_scope.
 Definition zl_eqb (a b : list Z) := if list_eq_dec Z.eq_dec a b then true else false.
@@ -592,6 +596,7 @@ Definition ok_closed (c : nat * (Z * Z) * list Z) := let '(n, r, out) := c in zl
 E2_LAB
 E2_LB2
 E2_REPL
+E2_RELB
 """
 
 E2_GEN = ("From PVG Require Import Gen_auto_param_indices.",
@@ -604,19 +609,24 @@ E2_LAB2 = ("From PVG Require Import Gen_get_unique_label.",
 E2_REP = ("From PVG Require Import Gen_replace.",
           "Definition ok_rep (c : string * string * string * bool * bool * string) := let '(e, t, r, rh, lh, o) := c in\n"
           "  match Gen_replace.replace e t r rh lh with Some x => String.eqb x o | None => false end.")
+E2_REL = ("From PVG Require Import Gen_relabel_var.",
+          "Definition ok_rel (c : string * sdict * string) := let '(v, m, o) := c in\n"
+          "  match relabel_var v m with Some x => String.eqb x o | None => false end.")
 E2_LAB = ("From PVG Require Import Gen_generate_unique_label.\nFrom PV Require Import LabelGen.",
           "Definition ok_lab (c : dict * list string * list string * list string) := let '(tab, req, out, keys) := c in\n"
           "  match requests tab req with Some (rs, tab') => sl_eqb rs out && sl_eqb (py_keys tab') keys | None => false end.")
 
 def header_e2(ctx):
-    ok, failed, log = build_coq(["LabelGen", "Gen_get_unique_label", "Gen_replace"])   # LabelGen.v = Gen_generate_unique_label + the request state machine
+    ok, failed, log = build_coq(["LabelGen", "Gen_get_unique_label", "Gen_replace", "Gen_relabel_var"])   # LabelGen.v = Gen_generate_unique_label + the request state machine
     lab2 = not any(f.endswith("Gen_get_unique_label.v") for f in failed)
     repl = not any(f.endswith("Gen_replace.v") for f in failed)
-    lab = not [f for f in failed if not f.endswith(("Gen_get_unique_label.v", "Gen_replace.v"))]
-    if not (lab and lab2 and repl):
+    rel = not any(f.endswith("Gen_relabel_var.v") for f in failed)
+    lab = not [f for f in failed if not f.endswith(("Gen_get_unique_label.v", "Gen_replace.v", "Gen_relabel_var.v"))]
+    if not (lab and lab2 and repl and rel):
         ctx.note(f"E2: label generators not available for validation (failed: {[os.path.basename(f) for f in failed]})")
     gen = not (ctx.proof and set(ctx.proof["failed"]) & {"Gen_auto_param_indices", "PyLib", "Auto"})
     h = HEADER_E2.replace("E2_IMPORT", (E2_GEN[0] if gen else "") + "\n" + (E2_LAB[0] if lab else "") + "\n" + (E2_LAB2[0] if lab2 else "") + "\n" + (E2_REP[0] if repl else ""))
+    h = h.replace("E2_IMPREL", E2_REL[0] if rel else "").replace("E2_RELB", E2_REL[1] if rel else "Definition ok_rel (c : string * sdict * string) := true.")
     h = h.replace("E2_REPL", E2_REP[1] if repl else "Definition ok_rep (c : string * string * string * bool * bool * string) := true.")
     h = h.replace("E2_LB2", E2_LAB2[1] if lab2 else "Definition ok_lab2 (c : dict * list string * list string * list string) := true.")
     h = h.replace("E2_GEN", E2_GEN[1] if gen else "Definition ok_gen (c : nat * (Z * Z) * list Z) := true.")
@@ -653,6 +663,10 @@ def e2_streams(ctx):
         cases.append(dict(kind="replace", eq="".join(rng.choice("rx=+ (1_") for _ in range(rng.randint(0, 12))),
                           term="".join(rng.choice("rx1") for _ in range(rng.randint(1, 2))), rep=rng.choice(["X", "yy", "", "r"]),
                           rhs=rng.random() < 0.3, lhs=rng.random() < 0.2))
+    for _ in range(40):      # CircuitTemplate._relabel_var vs Gen_relabel_var
+        comps = [rng.choice(["a", "b", "op", "n1", "v", ""]) for _ in range(rng.randint(1, 5))]
+        keys = {"/".join(comps[:k]) for k in range(len(comps) + 1) if rng.random() < 0.35} | ({"zz/q"} if rng.random() < 0.3 else set())
+        cases.append(dict(kind="relabel", var="/".join(comps), map=[[k, rng.choice(["X", "all/n", "g/h/i"])] for k in sorted(keys)]))
     outs = run_impl(ctx, "c18", "impl_slots", cases, nworkers=1)
     sl = [(c, o) for c, o in zip(cases, outs) if c["kind"] == "slots" and "err" not in o]
     lb = [(c, o) for c, o in zip(cases, outs) if c["kind"] == "labels" and "err" not in o]
@@ -666,14 +680,17 @@ def e2_streams(ctx):
     rp = [(c, o) for c, o in zip(cases, outs) if c["kind"] == "replace" and "err" not in o]
     b_ = lambda x: "true" if x else "false"
     t3 = clist([f"({cstr(c['eq'])}, {cstr(c['term'])}, {cstr(c['rep'])}, {b_(c['rhs'])}, {b_(c['lhs'])}, {cstr(o['out'])})" for c, o in rp])
+    rl = [(c, o) for c, o in zip(cases, outs) if c["kind"] == "relabel" and "err" not in o]
+    t4 = clist([f"({cstr(c['var'])}, {clist([cpair(cstr(k), cstr(v)) for k, v in c['map']])}, {cstr(o['out'])})" for c, o in rl])
     T = "list (dict * list string * list string * list string)"
     body = (f"Definition s := {t1}.\nDefinition l : {T} := {t2}.\nDefinition l2 : {T} := {labterm(l2)}.\nEval vm_compute in (mismatches ok_gen s).\n"
             "Eval vm_compute in (mismatches ok_closed s).\nEval vm_compute in (mismatches ok_lab l).\nEval vm_compute in (mismatches ok_lab2 l2).\n"
-            f"Definition r3 : list (string * string * string * bool * bool * string) := {t3}.\nEval vm_compute in (mismatches ok_rep r3).\n")
+            f"Definition r3 : list (string * string * string * bool * bool * string) := {t3}.\nEval vm_compute in (mismatches ok_rep r3).\n"
+            f"Definition r4 : list (string * sdict * string) := {t4}.\nEval vm_compute in (mismatches ok_rel r4).\n")
     ls = parse_nat_lists(coq_eval(ctx, "c18_e2", header_e2(ctx), body))
-    assert len(ls) == 5, ls
+    assert len(ls) == 6, ls
     crashed = [c for c, o in zip(cases, outs) if "err" in o]
-    bad_tr = [sl[i][0] for i in ls[0]] + [lb[i][0] for i in ls[2]] + [l2[i][0] for i in ls[3]] + [rp[i][0] for i in ls[4]] + crashed
+    bad_tr = [sl[i][0] for i in ls[0]] + [lb[i][0] for i in ls[2]] + [l2[i][0] for i in ls[3]] + [rp[i][0] for i in ls[4]] + [rl[i][0] for i in ls[5]] + crashed
     bad_cf = [(sl[i][0], sl[i][1]) for i in ls[1] if i in dflt]
     dup = [c for c, o in lb if len([r for r in o["out"] if r != "t"]) != len({r for r in o["out"] if r != "t"})]
     return cases, bad_tr, bad_cf, dup
